@@ -110,6 +110,7 @@ const glueTemplate = `package %[1]s
 
 import (
 	"bytes"
+	"fmt"
 	"os"
 	"path/filepath"
 	"sync"
@@ -126,6 +127,7 @@ func init() {
 		GrammarText: %[3]s,
 		Flags:       %[4]s,
 		Has:         %[5]s,
+		Prebuild:    verifPrebuild,
 		Parse:       verifParse,
 		Inspect:     verifInspect,
 		G:           func() any { return %[8]s },
@@ -133,6 +135,37 @@ func init() {
 }
 
 var verifFileOnce sync.Once
+
+// Option values built once and applied by several clients.
+var verifShared map[string]Option
+
+func verifPrebuild(keys []string) {
+	m := map[string]Option{}
+	for _, k := range keys {
+		switch {
+		case k == "recover:true":
+			m[k] = Recover(true)
+		case k == "recover:false":
+			m[k] = Recover(false)
+		case k == "utf8":
+			m[k] = AllowInvalidUTF8(true)
+		case k == "entryempty":
+			m[k] = Entrypoint("")
+		case len(k) > 6 && k[:6] == "entry:":
+			m[k] = Entrypoint(k[6:])
+		}
+	}
+	verifShared = m
+}
+
+func verifOpt(o *parsersim.Opts, key string, mk func() Option) Option {
+	if o.SharedOptions {
+		if v, ok := verifShared[key]; ok {
+			return v
+		}
+	}
+	return mk()
+}
 
 // Option values kept and re-applied (single-client campaigns only).
 var verifMaxExprOpts = map[uint64]Option{}
@@ -154,13 +187,15 @@ func verifParse(filename string, input []byte, o *parsersim.Opts, ctx *kernel.Ct
 	}
 %[6]s
 	if o.Recover != nil {
-		opts = append(opts, Recover(*o.Recover))
+		opts = append(opts, verifOpt(o, fmt.Sprintf("recover:%%v", *o.Recover), func() Option { return Recover(*o.Recover) }))
 	}
 	if o.AllowInvalidUTF8 {
-		opts = append(opts, AllowInvalidUTF8(true))
+		opts = append(opts, verifOpt(o, "utf8", func() Option { return AllowInvalidUTF8(true) }))
 	}
-	if o.Entrypoint != "" {
-		opts = append(opts, Entrypoint(o.Entrypoint))
+	if o.EntryEmpty {
+		opts = append(opts, verifOpt(o, "entryempty", func() Option { return Entrypoint("") }))
+	} else if o.Entrypoint != "" {
+		opts = append(opts, verifOpt(o, "entry:"+o.Entrypoint, func() Option { return Entrypoint(o.Entrypoint) }))
 	}
 	if o.MaxExpr > 0 {
 		if o.ReuseOptions {
